@@ -114,9 +114,13 @@ struct Relay {
             execv(exe, (char *const *)av.data());
             _exit(127);
         }
-        // wait until the relay listens
+        // wait until the relay listens: a probe client connects to the front address and stays until the
+        // connection the relay opens on its behalf has been accepted by the server behind.  That arrival
+        // is also the proof that the listener which answered is this relay and not somebody else's socket
+        // on a port this relay lost the race for (it then exits with "Address already in use").
         ok = false;
-        for (int i = 0; i < 600 && !ok; i++) {
+        double t0 = now_s();
+        while (!ok && now_s() - t0 < 8.0) {
             if (!alive()) { err = "relay exited at start"; return; }
             Ep probe;
             probe.tag = 201;
@@ -125,26 +129,25 @@ struct Relay {
             if (proto_bs(f)) xcm_attr_map_add_str(pa, "xcm.service", "bytestream");
             probe.s = call(probe, [&] { return xcm_connect_a(front_addr.c_str(), pa); });
             xcm_attr_map_destroy(pa);
-            if (probe.s) {
-                probe.closed = false;
-                // for TCP the connect is asynchronous: see whether it completes
-                bool up = false;
-                for (int k = 0; k < 200; k++) { int rc = x_finish(probe); if (rc == 0) { up = true; break; } if (errno != EAGAIN) break; usleep(1000); }
-                x_close(probe);
-                // (whoever answered may be somebody else's listener on a port this relay lost the race for)
-                if (up) { usleep(3000); if (!alive()) { err = "relay exited at start"; return; } ok = true; break; }
+            if (!probe.s) { usleep(5000); continue; }
+            probe.closed = false;
+            bool dead = false;
+            double t1 = now_s();
+            while (!ok && !dead && now_s() - t1 < 2.0) {
+                int rc = x_finish(probe);
+                if (rc < 0 && errno != EAGAIN) dead = true; // nobody listening yet (or refused): try again
+                Ep acc;
+                acc.tag = 202;
+                acc.s = call(acc, [&] { return xcm_accept(server.s); });
+                if (acc.s) { acc.closed = false; x_close(acc); ok = true; }
+                if (!alive()) dead = true;
+                if (!ok) usleep(1000);
             }
-            usleep(5000);
+            x_close(probe);
+            if (!ok) usleep(5000);
         }
-        if (!ok) { err = "relay did not start listening on " + front_addr; return; }
-        // the probe connection made the relay connect to B once: consume it
-        for (int i = 0; i < 300; i++) {
-            Ep acc;
-            acc.tag = 202;
-            acc.s = call(acc, [&] { return xcm_accept(server.s); });
-            if (acc.s) { acc.closed = false; for (int k = 0; k < 50; k++) { uint8_t t[64]; int rc = x_receive(acc, t, sizeof(t)); if (rc == 0 || (rc < 0 && errno != EAGAIN)) break; usleep(1000); } x_close(acc); break; }
-            usleep(2000);
-        }
+        if (!ok) { err = alive() ? "the probe connection never reached the server behind the relay (" + front_addr + ")" : "relay exited at start"; return; }
+        // leftovers of probes that were given up: drained by their EOF in open_conn's pairing
     }
     pid_t last_pid = -1;
     bool alive()
